@@ -23,6 +23,22 @@ kf("C08", "C08-pointer-to-matrix-column-argument", "`f(&m[i])` with m a function
 
 kf("C08", "C08-hlsl-global-init-unary", "HLSL backend rejects a module-scope variable whose initialiser is a scalar conversion of a negated literal (`var<private> p: i32 = i32(-2147483648);`): \"unsupported global expression type: ir.ExprUnary\"",
    ["C08|hlsl|*|hlsl: unsupported global expression type: ir.ExprUnary|F1lit/private/i32"])
+kf("C08", "C08-forward-reference-inside-bitcast", "the pass that orders module-scope declarations does not look inside a bitcast operand: `bitcast<u32>(K)` with K a const / var / struct / alias declared later in the file is rejected (\"unresolved identifier\" / \"unknown function\"), and `bitcast<i32>(f())` with f declared later is lowered with the callee after the caller, which the SPIR-V backend rejects (\"function # not found in functionIDs\"). Reproducer: `fn h() -> u32 { return bitcast<u32>(K); } const K: i32 = 4;`",
+   ["C08|lower|-|*function host body: unresolved identifier: KC|F8h/const/any/bitcast*", "C08|lower|-|*function host body: unresolved identifier: gp|F8h/var/any/bitcast*",
+    "C08|lower|-|*function host body: unknown function: SI|F8h/struct/any/bitcast*", "C08|lower|-|*function host body: unknown function: AI|F8h/alias/any/bitcast*",
+    "C08|spirv|*|SPIR-V generation error: function # not found in functionIDs|F8h/fn/any/bitcast*",
+    "C08|compile|default|SPIR-V generation error: SPIR-V generation error: function # not found in functionIDs|F8h/fn/any/bitcast*"])
+kf("C08", "C08-forward-reference-after-nested-shadow", "a local declared in a nested block (or a for initialiser) hides the module-scope const/var of the same name from the declaration-ordering pass for the REST of the function, not only until the block ends: `fn h() -> i32 { { let g = 7; } return g; } const g: i32 = 5;` is rejected with \"unresolved identifier: g\" although the final `g` is the (later-declared) module constant; accepted when the constant is declared first",
+   ["C08|lower|-|*function host body: unresolved identifier: g|F8s/const/*/noref/after/decl-after/in-helper", "C08|lower|-|*function host body: unresolved identifier: g|F8s/const/*/noref/after/decl-last/in-helper",
+    "C08|lower|-|*function host body: unresolved identifier: g|F8s/aconst/*/noref/after/decl-after/in-helper", "C08|lower|-|*function host body: unresolved identifier: g|F8s/aconst/*/noref/after/decl-last/in-helper",
+    "C08|lower|-|*function host body: unresolved identifier: g|F8s/var/*/noref/after/decl-after/in-helper"])
+kf("C08", "C08-bitcast-alias-target", "`bitcast<AI>(4u)` with `alias AI = i32;` is rejected (\"unsupported bitcast target type 'AI'\") wherever the alias is declared",
+   ["C08|lower|-|*bitcast target type: unsupported bitcast target type 'AI'|F8h/alias/only/bitcast-type/*"])
+kf("C08", "C08-case-selector-const-expression", "a case selector that is a const-expression other than a literal or a named constant is rejected: `case SI(4, 2).a:` (\"member access on non-vector call 'SI' in constant expression\"), `case AI(4):` with `alias AI = i32;` (\"unsupported function 'AI' in constant expression\")",
+   ["C08|lower|-|*switch case selector: member access on non-vector call 'SI' in constant expression|F8h/struct/any/case-selector*",
+    "C08|lower|-|*switch case selector: unsupported function 'AI' in constant expression|F8h/alias/any/case-selector*"])
+kf("C08", "C08-module-const-alias-constructor", "a module-scope constant initialised through an alias used as a conversion, `alias AI = i32; const C = AI(4);`, is rejected (\"module constant 'C': unsupported call expression 'AI'\") in every declaration order; the same expression is accepted inside a function",
+   ["C08|lower|-|*module constant 'C': unsupported call expression 'AI'*|F8o/const-alias-conv/*"])
 
 # ---------------------------------------------------------------- C01 (SPIR-V semantics)
 kf("C01", "C01-fmod", "f32 `%` is emitted as OpFMod (floored, sign of divisor); WGSL prescribes the truncated remainder (sign of dividend), e.g. -7.5 % 2.0 gives 0.5 instead of -1.5",
@@ -48,6 +64,10 @@ kf("C01", "C01-private-initialiser-dropped", "the initialiser of a module-scope 
 
 kf("C01", "C01-const-composite-null", "a module-scope `const` of array type copied into a function variable (`var t = TBL; t[i]`) is emitted as OpConstantNull: the SPIR-V backend emits constants that have no inline value as null (`emitConstant` fallback), so every element reads as zero",
    ["C01|F1lit/constarray/*|*|mismatch"])
+kf("C01", "C01-block-const-outlives-block", 'a function-scope `const` without type annotation declared in a nested block stays bound after the block ends (popScope does not drop the deferred initialiser): `const g: i32 = 5; fn h() -> i32 { var acc = 0; { const g = 7; acc += g; } acc += g; return acc; }` returns 14 instead of 12 (same with a module-scope var g)',
+   ["C01|F8s/*/blk-const/noref/after/*|*|mismatch"])
+kf("C01", "C01-workgroup-size-forward-const", '`@workgroup_size(WG)` with `const WG: u32 = 2u;` declared AFTER the entry point is compiled with workgroup size 1 (no error); with the const declared first it is 2',
+   ["C01|F8o/workgroup-size-const/*|*|mismatch"])
 
 # ---------------------------------------------------------------- C03 (HLSL semantics)
 kf("C03", "C03-clz-ctz", "countLeadingZeros/countTrailingZeros are emitted as bare firstbithigh/firstbitlow (clz(1)=0, ctz(0)=0xFFFFFFFF instead of 32)",
@@ -59,6 +79,15 @@ kf("C03", "C03-sign-int", "sign(f32) result is stored through asuint(sign(x)); H
 kf("C03", "C03-inverse-hyperbolic", "asinh/acosh/atanh are emitted as calls to functions HLSL does not have (undeclared identifier)",
    ["C03|F1/call/asinh/*|*|malformed-output*", "C03|F1/call/acosh/*|*|malformed-output*", "C03|F1/call/atanh/*|*|malformed-output*"])
 
+kf("C03", "C03-block-const-outlives-block", 'a function-scope `const` without type annotation declared in a nested block stays bound after the block ends (popScope does not drop the deferred initialiser): `const g: i32 = 5; fn h() -> i32 { var acc = 0; { const g = 7; acc += g; } acc += g; return acc; }` returns 14 instead of 12 (same with a module-scope var g)',
+   ["C03|F8s/*/blk-const/noref/after/*|*|mismatch"])
+kf("C03", "C03-workgroup-size-forward-const", '`@workgroup_size(WG)` with `const WG: u32 = 2u;` declared AFTER the entry point is compiled with workgroup size 1 (no error); with the const declared first it is 2',
+   ["C03|F8o/workgroup-size-const/*|*|mismatch"])
+kf("C03", "C03-loop-body-value-in-continuing", 'a value bound in a loop body from a function call and used in the continuing block (`loop { if n >= 2 { break; } let t = f(0) * 2; continuing { n += 1; acc += t; } }`) is emitted in the continuing position as a reference to a name that is never declared' + " (`_f_result`)",
+   ["C03|F8s/fn/loop-let/ref/*|*|malformed-output:undeclared identifier*"])
+kf("C03", "C03-forward-call-inside-bitcast", 'forward call inside a bitcast operand (`bitcast<u32>(f1(1))` with f1 declared later): the callee is lowered and emitted after its caller (see C08-forward-reference-inside-bitcast)' + ": call of an undeclared function in HLSL",
+   ["C03|F8h/fn/any/bitcast*|*|malformed-output:call of undeclared function*"])
+
 # ---------------------------------------------------------------- C04 (MSL semantics)
 kf("C04", "C04-round-ties", "round() is emitted as metal::round (ties away from zero); WGSL requires ties-to-even (metal::rint)",
    ["C04|F1/call/round/*|*|mismatch"])
@@ -69,6 +98,13 @@ kf("C04", "C04-firstLeadingBit-u32", "firstLeadingBit(u32) guards with `x == 0 |
 kf("C04", "C04-int-dot-overflow", "dot() on i32 vectors is emitted as plain `a.x * b.x + ...` on int; signed overflow is undefined in MSL/C++ (WGSL wraps)",
    ["C04|F1/call/dot/*i32*|*|trap:signed-overflow"])
 
+kf("C04", "C04-block-const-outlives-block", 'a function-scope `const` without type annotation declared in a nested block stays bound after the block ends (popScope does not drop the deferred initialiser): `const g: i32 = 5; fn h() -> i32 { var acc = 0; { const g = 7; acc += g; } acc += g; return acc; }` returns 14 instead of 12 (same with a module-scope var g)',
+   ["C04|F8s/*/blk-const/noref/after/*|*|mismatch"])
+kf("C04", "C04-loop-body-value-in-continuing", 'a value bound in a loop body from a function call and used in the continuing block (`loop { if n >= 2 { break; } let t = f(0) * 2; continuing { n += 1; acc += t; } }`) is emitted in the continuing position as a reference to a name that is never declared' + " (the MSL text does not parse)",
+   ["C04|F8s/fn/loop-let/ref/*|*|malformed-output:unexpected*"])
+kf("C04", "C04-forward-call-inside-bitcast", 'forward call inside a bitcast operand (`bitcast<u32>(f1(1))` with f1 declared later): the callee is lowered and emitted after its caller (see C08-forward-reference-inside-bitcast)' + ": use of an undeclared identifier in MSL",
+   ["C04|F8h/fn/any/bitcast*|*|malformed-output:use of undeclared identifier*"])
+
 # ---------------------------------------------------------------- C05 (GLSL semantics)
 kf("C05", "C05-vector-select-ternary", "select() with a vector condition is emitted as `bvec ? a : b`; the ?: condition must be a scalar bool in GLSL (invalid at every version)",
    ["C05|F1/call/select/*|*|malformed-output*"])
@@ -78,6 +114,15 @@ kf("C05", "C05-global-init-scalar-conversion", "a module-scope variable initiali
    ["C05|F1lit/private/i32|*|mismatch"])
 kf("C05", "C05-abs-unsigned", "abs(u32) is emitted as abs(uint), which GLSL does not define (type error)",
    ["C05|F1/call/abs/*u32*|*|malformed-output*", "C05|F4c/*call:abs:u32*|*|malformed-output*"])
+
+kf("C05", "C05-block-const-outlives-block", 'a function-scope `const` without type annotation declared in a nested block stays bound after the block ends (popScope does not drop the deferred initialiser): `const g: i32 = 5; fn h() -> i32 { var acc = 0; { const g = 7; acc += g; } acc += g; return acc; }` returns 14 instead of 12 (same with a module-scope var g)',
+   ["C05|F8s/*/blk-const/noref/after/*|*|mismatch"])
+kf("C05", "C05-workgroup-size-forward-const", '`@workgroup_size(WG)` with `const WG: u32 = 2u;` declared AFTER the entry point is compiled with workgroup size 1 (no error); with the const declared first it is 2',
+   ["C05|F8o/workgroup-size-const/*|*|mismatch"])
+kf("C05", "C05-loop-body-value-in-continuing", 'a value bound in a loop body from a function call and used in the continuing block (`loop { if n >= 2 { break; } let t = f(0) * 2; continuing { n += 1; acc += t; } }`) is emitted in the continuing position as a reference to a name that is never declared' + " (GLSL: the function's name is used as a value)",
+   ["C05|F8s/fn/loop-let/ref/*|*|malformed-output:function*used without a call"])
+kf("C05", "C05-forward-call-inside-bitcast", 'forward call inside a bitcast operand (`bitcast<u32>(f1(1))` with f1 declared later): the callee is lowered and emitted after its caller (see C08-forward-reference-inside-bitcast)' + ": undeclared identifier in GLSL",
+   ["C05|F8h/fn/any/bitcast*|*|malformed-output:undeclared identifier*"])
 
 # ---------------------------------------------------------------- C10 (robustness)
 kf("C10", "C10-swizzle-chain-exponential", "a chained swizzle `v.xyzw.xyzw...` makes lowering time and memory grow exponentially: 64 links (under 400 bytes of source) exceed the CPU cap or, on a faster machine, exhaust the 4 GiB address-space limit first (out of memory in Lowerer.addExpressionRaw)",
@@ -127,6 +172,11 @@ kf("C09", "C09-const-array-element-store", "`out[0] = positions[1]` with positio
    ["C09|store-type|*|corpus/mesh-shader"])
 kf("C09", "C09-cmpxchg-result-member-emit", "members of the atomicCompareExchangeWeak result used in a later statement are not covered by a dominating Emit",
    ["C09|emit-dominates|*|atomics_workgroup_barriers"])
+
+kf("C09", "C09-alias-scalar-duplicate-type", "`alias AI = i32;` adds a second i32 entry to the type arena: a variable or member declared with the alias has a different type handle than the i32 values stored to it (`alias AI = i32; var<private> g: AI = 1; ... g = g + 1;` stores #2:i32 through ptr<#4:i32>), so the module is not deduplicated",
+   ["C09|store-type|*|F8o/alias-chain/*", "C09|store-type|*|F8o/struct-nest/*", "C09|store-type|*|F8o/var-init/*"])
+kf("C09", "C09-forward-call-inside-bitcast", "forward call inside a bitcast operand (`bitcast<u32>(f1(1))` with f1 declared later): the call is lowered before its callee, so the argument literal stays abstract-int, the call result and the bitcast have no recorded type (see C08-forward-reference-inside-bitcast)",
+   ["C09|call-args|*|F8h/fn/any/bitcast*", "C09|no-abstract|*|F8h/fn/any/bitcast*", "C09|expr-type|*|F8h/fn/any/bitcast*"])
 
 # ---------------------------------------------------------------- C12 (determinism, histories, schedules)
 kf("C12", "C12-backend-version-leak", "a reused spirv.Backend kept options.Version bumped to 1.4 by an earlier Compile (atomicOps-int64, workgroup-var-init): every later module was emitted as SPIR-V 1.4",
